@@ -23,6 +23,26 @@ def app(prop, theorems, explanation, assumptions, facts=None):
 
 
 PROPS = {
+    "C01": {
+        "module": "Shutter.Properties.C01",
+        "theorems": ["C01_exact", "C01_correct", "C01_order_independent", "C01_no_panic"],
+        "driver": {"pkg": "./cmd/kgcheck"},
+        "trusted_base": [KERNEL + " (these theorems use Mathlib: Mathlib.LinearAlgebra.Lagrange)", CORR,
+                         "modelled, not verified: BLS12-381 (the share check is the hypothesis `verify i s ↔ s = f(x_i)•H`, which is what the "
+                         "pairing equation says for a non-degenerate pairing; blst implementing such a pairing is trusted); the executable "
+                         "instance of the model used for the correspondence is arithmetic modulo the BLS scalar order on discrete logarithms "
+                         "(that Z/q is a field is a standard fact, not re-proved)",
+                         "the table-level handler (shares read back from the database in unspecified order) is exercised by the C03/C04 rigs; "
+                         "C01_order_independent is the theorem that makes that order irrelevant"],
+        "explanation": "Theorems (Lean, any field F, any F-module G, any polynomial f of degree < t, any point H, any sequence of incoming "
+                       "shares from senders inside the set): a key is held iff valid shares of >= t distinct keypers occurred; every key "
+                       "derived equals f(0)•H (Lagrange interpolation at zero, via Mathlib); sequences with the same valid senders end "
+                       "with the same key; no index panic for senders in range. The real EpochKG (with blst pairings) is fed "
+                       "exhaustively enumerated and sampled share sequences and compared with the model; derived keys are checked to "
+                       "decrypt a message encrypted to the eon public key.",
+        "assumptions": ["n smaller than the field characteristic (distinct evaluation points)",
+                        "sender index < n (enforced by the gossip validator after the fix: commit; see C04/C05)"],
+    },
     "C06": {
         "module": "Shutter.Properties.C06",
         "theorems": ["C06_gnosis_iff", "C06_tamper", "C06_service_unsigned", "C06_service_signed"],
